@@ -298,3 +298,129 @@ def _failure_polarity(cond):
 
 def _direct_var_test(cond, var):
     return True
+
+
+# --------------------------------------------------------------------------
+# pointer nullness (origins) - used for "Py_DECREF on a pointer that is still
+# NULL on this path"
+def _refine(cond, pol, out):
+    """Collect {var: 'null'|'nonnull'} facts that hold when `cond` evaluates
+    to `pol`."""
+    c = C.strip(cond) if cond else None
+    if c is None:
+        return
+    k = c.get("kind")
+    if k == "BinaryOperator" and c.get("opcode") == "||":
+        if pol is False:
+            for x in C.kids(c):
+                _refine(x, False, out)
+        return
+    if k == "BinaryOperator" and c.get("opcode") == "&&":
+        if pol is True:
+            for x in C.kids(c):
+                _refine(x, True, out)
+        return
+    if k == "UnaryOperator" and c.get("opcode") == "!":
+        _refine(C.kids(c)[0], not pol, out)
+        return
+    if k == "BinaryOperator" and c.get("opcode") in ("==", "!="):
+        a, b = C.kids(c)
+        for x, y in ((a, b), (b, a)):
+            nm = (C.strip_all(x).get("referencedDecl") or {}).get("name")
+            isnull = C.int_value(y) == 0 or any(
+                z.get("castKind") == "NullToPointer" for z in C.walk(y))
+            if nm and isnull:
+                eq = c.get("opcode") == "=="
+                out[nm] = "null" if eq == pol else "nonnull"
+        return
+    if k == "DeclRefExpr":
+        nm = (c.get("referencedDecl") or {}).get("name")
+        if nm:
+            out[nm] = "nonnull" if pol else "null"
+
+
+def _is_null_expr(e):
+    return C.int_value(e) == 0 or (
+        C.strip_all(e).get("kind") in ("IntegerLiteral", "GNUNullExpr", "CXXNullPtrLiteralExpr")
+        and C.int_value(e) in (0, None)) or any(
+        z.get("castKind") == "NullToPointer" for z in C.walk(e)) and \
+        C.strip_all(e).get("kind") in ("IntegerLiteral", "ParenExpr", "CStyleCastExpr",
+                                       "ImplicitCastExpr")
+
+
+def null_deref_sites(fn, deref_funcs=("Py_DECREF", "Py_INCREF"), types=("PyObject *", "struct _object *")):
+    """[(var, line, callee)] where a pointer local reaches `callee(var)` while it
+    may still hold the NULL it was explicitly given (declaration initialiser or
+    assignment) on some path - callee dereferences its argument."""
+    cfg = CCFG(fn)
+    tracked = set()
+    init = {}
+    for n in C.walk(fn):
+        if n.get("kind") == "VarDecl" and any(t in C.qtype(n) for t in types):
+            tracked.add(n.get("name"))
+            ks = C.kids(n)
+            if ks and _is_null_expr(ks[-1]):
+                init[n.get("name")] = frozenset(["null0"])
+            elif ks:
+                init[n.get("name")] = frozenset(["val"])
+            else:
+                init[n.get("name")] = frozenset(["uninit"])
+    if not tracked:
+        return []
+    # states flow along edges; declarations are processed where they occur
+    IN = {}
+    work = [(cfg.entry, {})]
+    reports = {}
+
+    def join(a, b):
+        out = dict(a)
+        for k, v in b.items():
+            out[k] = out.get(k, frozenset()) | v
+        return out
+    steps = 0
+    while work and steps < 20000:
+        steps += 1
+        n, st = work.pop()
+        old = IN.get(n.id)
+        new = st if old is None else join(old, st)
+        if old is not None and new == old:
+            continue
+        IN[n.id] = new
+        cur = dict(new)
+        if n.kind == "branch":
+            facts = {}
+            _refine(n.cond, bool(n.pol), facts)
+            dead = False
+            for v, f in facts.items():
+                if v in tracked and v in cur:
+                    if f == "nonnull":
+                        rest = cur[v] - {"null0"}
+                        if not rest and cur[v]:
+                            dead = True        # only NULL reaches here: infeasible
+                        cur[v] = rest or frozenset(["val"])
+                    else:
+                        cur[v] = frozenset(["null0"])
+            if dead:
+                continue
+        elif n.ast is not None and n.kind not in ("label", "goto"):
+            a = n.ast
+            if n.kind in ("stmt", "return", "test"):
+                # uses first (arguments are evaluated before any assignment here)
+                for x in C.walk(a):
+                    if x.get("kind") == "CallExpr" and C.callee(x) in deref_funcs:
+                        args = C.call_args(x)
+                        if args:
+                            v = (C.strip_all(args[0]).get("referencedDecl") or {}).get("name")
+                            if v in tracked and "null0" in cur.get(v, ()):
+                                reports[(v, x.get("_line", 0), C.callee(x))] = True
+                for x in C.walk(a):
+                    if x.get("kind") == "VarDecl" and x.get("name") in tracked:
+                        cur[x.get("name")] = init[x.get("name")]
+                    elif x.get("kind") == "BinaryOperator" and x.get("opcode") == "=":
+                        l, r = C.kids(x)
+                        v = (C.strip_all(l).get("referencedDecl") or {}).get("name")
+                        if v in tracked and C.strip_all(l).get("kind") == "DeclRefExpr":
+                            cur[v] = frozenset(["null0"]) if _is_null_expr(r) else frozenset(["val"])
+        for s in n.succ:
+            work.append((s, cur))
+    return sorted(reports)
